@@ -86,13 +86,17 @@ class NeutralGen(rustgen.EnumGen):
 SUPPORT_STD = rustgen.SUPPORT_NOSTD_RS  # the same allocation-free support types work everywhere
 
 
-def build_config(res, label, especs, ws, gen_for, lib_head, extra_main=''):
+def build_config(res, label, especs, ws, gen_for, lib_head, extra_main='', pair_with=None):
     def render(es):
         files = {'support.rs': SUPPORT_STD}
         main = [lib_head, 'mod support;', extra_main]
         for k, e in enumerate(es):
             g = gen_for(e, k)
-            files['e_%s.rs' % e.id] = g.render()
+            src = g.render()
+            if pair_with and e.id in pair_with:
+                # a second definition in the SAME module: nothing a derive emits at module level may collide
+                src += '\n'.join(l for l in gen_for(pair_with[e.id], k).render().split('\n')[1:] if not l.startswith('pub type Inst'))
+            files['e_%s.rs' % e.id] = src
             main.append('mod e_%s;' % e.id)
         files['lib.rs'] = '\n'.join(main) + '\n'
         return files
@@ -202,6 +206,16 @@ def run(tier, seed, rng):
     # needs) itself
     solos = solo_clones(especs[::3] if tier == 'quick' else especs)
     build_config(res, 'solo-derive', solos, runner.Workspace('c19solo', target_key='std'), lambda e, k: SoloDefs(e), '#![allow(warnings)]')
+    # two definitions with the same derives in ONE module
+    plain = [e for e in especs if not e.extra.get('pre_items') and not rustgen.EnumGen(e).dw_fns()]
+    firsts, partner = [], {}
+    for a, b in zip(plain[0::2], plain[1::2]):
+        if a.name != b.name:
+            firsts.append(a)
+            partner[a.id] = b
+    if tier == 'quick':
+        firsts = firsts[::2]
+    build_config(res, 'two-per-module', firsts, runner.Workspace('c19pair', target_key='std'), lambda e, k: SoloDefs(e), '#![allow(warnings)]', pair_with=partner)
     res.cov['programs'] = len(especs)
     res.cov['evaluations'] = len(lines) + 3 * len(especs)
     res.cov['disagreements_checked'] = nrefs
